@@ -46,6 +46,8 @@ RULES = {
     "E4": "temporal_assert!(c, ..) -> `if !(c) { return Err(TemporalError::assert()); }`; "
           "debug_assert!/assert!/assert_eq!/debug_assert_eq! -> Verus `assert(..)` proof obligations",
     "E5": "proof blocks at function entry / before or after an anchored line; loop invariants on the n-th loop",
+    "E15": "`const N: T = e;` whose initialiser calls a function Verus cannot evaluate in spec mode -> "
+           "`exec const N: T ensures N == <value> { e }`; the value is proved from e, not assumed",
     "E13": "`x op= e` on signed integers for op in {/,%} -> `x = x op e`",
 }
 
@@ -349,7 +351,7 @@ def lineno(src, idx):
 # ---------------------------------------------------------------------------
 # rewriting helpers
 
-DROP_ATTR = re.compile(r"^\s*#\[(inline|must_use|allow|doc|non_exhaustive|cfg\(feature|cfg_attr|repr|deprecated|default\])")
+DROP_ATTR = re.compile(r"^\s*#\[(inline|must_use|allow|doc|non_exhaustive|cfg\(feature|cfg_attr|repr|deprecated)")
 
 
 def split_top_commas(s):
@@ -691,7 +693,7 @@ def find_fn_directive(unit, name):
             if nm:
                 tgt_name = nm[0][1].strip()
             full = d.target
-            if tgt_name == name or full.endswith(name):
+            if tgt_name == name or d.target.split('::')[-1].strip() == name:
                 return d
     raise ExtractError("assumed contract %s::%s not found" % (unit, name))
 
@@ -769,6 +771,19 @@ def emit_item(em, d):
         em.substs.append({"fn": d.target, "where": "item", "from": a, "to": b})
     lines = strip_docs_attrs(text.split("\n"))
     em.rules.add("E1")
+    if it.kind == "const" and d.get("ensures"):
+        # E15: `const N: T = e;` -> `exec const N: T ensures <clauses> { e }` (Verus proves the clause about e)
+        joined = "\n".join(lines)
+        m = re.match(r"\s*((?:pub\s+)?)const\s+([A-Za-z_][A-Za-z0-9_]*)\s*:\s*([^=]+?)\s*=\s*(.*);\s*$", joined, re.S)
+        if not m:
+            raise ExtractError("cannot parse const " + d.target)
+        ens = ", ".join(t.strip().rstrip(",") for (_, t) in d.get("ensures"))
+        entry = " ".join(t.strip() for (_, t) in d.get("entry"))
+        em.emit("%sexec const %s: %s\n    ensures %s,\n{\n    %s\n    %s\n}" % (
+            m.group(1), m.group(2), m.group(3), ens, ("proof { " + entry + " }") if entry else "", m.group(4)), origin)
+        em.rules.add("E15")
+        em.items.append({"item": d.target, "as": "exec const with ensures"})
+        return
     if it.kind in ("struct", "enum"):
         keep, have = rewrite_derive(attr_text)
         extra = [t for (_, t) in d.get("attr")]
